@@ -187,6 +187,9 @@ def check_main(prop, tier, seed):
     if hasattr(mod, "prepare"):
         mod.prepare()
     nworkers = min(nworkers_default(), plan.get("max_workers", 16))
+    mult = plan.get("workers_multiple_of")
+    if mult:
+        nworkers = max(mult, nworkers // mult * mult)
     outdir = tempfile.mkdtemp(prefix=f"vsim-{prop}-parent-", dir=kernel.scratch_root())
     harness_errors = []
     results = []
